@@ -18,6 +18,8 @@ import GeoProofs.Lemmas.C09Vw
 import GeoProofs.Lemmas.C09PHeap
 import GeoProofs.Lemmas.C09PExit
 import GeoProofs.Lemmas.C09PExitP
+import GeoProofs.Lemmas.C09XGlobal
+import GeoProofs.Lemmas.C09XTrace
 import Mathlib.Tactic.NormNum
 
 namespace Geo.Proofs.C09
@@ -516,5 +518,73 @@ example : (visvalingamPreserve 4 5
     (linesOf [⟨0, 0⟩, ⟨4, 0⟩, ⟨4, 4⟩, ⟨2, 5⟩, ⟨0, 4⟩, ⟨0, 0⟩])).map (·.1) =
       some [⟨0, 0⟩, ⟨4, 4⟩, ⟨0, 4⟩, ⟨0, 0⟩] := by
   decide +kernel
+
+/-! ### global guarantees (C09X) -/
+
+/-- [T] the *global* Douglas-Peucker guarantee, every input vertex against the output polyline: each
+input vertex is kept, or lies within `ε` of a segment between two consecutive output vertices
+(`line_segment_distance² ≤ ε²`). For every input, tolerance and `INITIAL_MIN`. -/
+theorem rdp_global_bound (mn : Nat) (cs : List Pt) (eps : Rat) :
+    ∀ r ∈ cs, r ∈ rdp mn cs eps ∨ ∃ s ∈ windows2 (rdp mn cs eps), segDist2 r s.1 s.2 ≤ eps * eps :=
+  within_global (rdp_error_bound mn cs eps)
+
+/-- [T] the same with the kept vertices folded in: when the output has at least two vertices (it has as
+soon as the input has), every input vertex is within `ε` of some segment of the output polyline. -/
+theorem rdp_global_bound_polyline (mn : Nat) (cs : List Pt) (eps : Rat)
+    (h2 : 2 ≤ (rdp mn cs eps).length) :
+    ∀ r ∈ cs, ∃ s ∈ windows2 (rdp mn cs eps), segDist2 r s.1 s.2 ≤ eps * eps := by
+  intro r hr
+  rcases rdp_global_bound mn cs eps r hr with h | h
+  · obtain ⟨s, hs, h0⟩ := mem_windows2_dist0 _ h2 r h
+    exact ⟨s, hs, by rw [h0]; exact mul_self_nonneg eps⟩
+  · exact h
+
+example : 2 ≤ (rdp 2 [⟨0, 0⟩, ⟨1, 1⟩, ⟨2, 0⟩, ⟨3, 1⟩] 5).length := by decide +kernel
+
+/-- [T] the removal trace of Visvalingam-Whyatt (`visvalingam_indices`, hence `simplify_vw` and
+`simplify_vw_idx` for `ε > 0`): the kept positions are what is left of the adjacency list after a
+sequence `tr` of removals (`replay adjInit tr`), and every removal, in the state in which it happens
+(`StepsOK`): removes a live vertex whose queue entry names its *current* neighbours, the entry's area is the
+exact area of that triangle and is at most `ε`, and no live interior vertex spans a smaller triangle with
+its current neighbours at that moment — the heap order is respected, stale entries never cause a
+removal. Together with `vw_exit_invariant` (what is left spans areas `> ε`) this is the whole greedy
+contract. -/
+theorem vw_removal_trace (cs : List Pt) (eps : Rat) (hn : 3 ≤ cs.length) :
+    ∃ tr : List VScore,
+      visvalingamIndices cs eps =
+        (List.range cs.length).filter (fun i => replay adjInit tr i != (0, 0)) ∧
+      StepsOK cs eps cs.length adjInit tr :=
+  visIdx_trace cs eps hn
+
+example : 3 ≤ ([⟨0, 0⟩, ⟨1, 1⟩, ⟨2, 0⟩, ⟨3, 1⟩] : List Pt).length := by decide
+
+/-- [T] what `StepsOK` says about the first removal, spelled out: the first vertex that is removed is an
+interior vertex whose triangle with its two *input* neighbours has area `≤ ε` and is the smallest of all
+such triangles of the input. -/
+theorem vw_first_removal (cs : List Pt) (eps : Rat) (adj : Adj) (s : VScore) (t : List VScore)
+    (h : StepsOK cs eps cs.length adj (s :: t)) :
+    triArea (coordAt cs s.left) (coordAt cs s.current) (coordAt cs s.right) ≤ eps ∧
+    adj s.current = ((s.left : Int), (s.right : Int)) ∧
+    ∀ v l r : Nat, v < cs.length → adj v ≠ (0, 0) → adj v = ((l : Int), (r : Int)) → r < cs.length →
+      triArea (coordAt cs s.left) (coordAt cs s.current) (coordAt cs s.right) ≤
+        triArea (coordAt cs l) (coordAt cs v) (coordAt cs r) := by
+  obtain ⟨h1, _, _, _, _, h6, h7, h8, _⟩ := h
+  rw [← h6]
+  exact ⟨h7, h1, h8⟩
+
+example : StepsOK [⟨0, 0⟩, ⟨1, 1⟩, ⟨2, 0⟩] 2 3 adjInit
+    [{ left := 0, current := 1, right := 2, area := 1, intersector := false }] := by
+  refine ⟨by simp [adjInit], by simp [adjInit], by decide, by decide, by decide, ?_, by norm_num, ?_, trivial⟩
+  · norm_num [triArea, coordAt, rabs]
+  · intro v l r hv _ hav hr
+    have hv1 : v = 1 := by
+      rcases (by omega : v = 0 ∨ v = 1 ∨ v = 2) with rfl | rfl | rfl
+      · simp [adjInit] at hav
+      · rfl
+      · simp [adjInit] at hav; omega
+    subst hv1
+    simp [adjInit] at hav
+    obtain ⟨rfl, rfl⟩ : l = 0 ∧ r = 2 := by omega
+    norm_num [triArea, coordAt, rabs]
 
 end Geo.Proofs.C09
